@@ -193,8 +193,12 @@ class Compiler:
             if node.open and node.close and node.close is not True and node.open > node.close:
                 raise CompilationError('CLOSE date must follow OPEN date')
 
-            # Apply OPEN, CLOSE, and CLEAR clauses.
-            self.table = self.table.update(open=node.open, close=node.close, clear=node.clear)
+            # Apply OPEN, CLOSE, and CLEAR clauses. These are supported
+            # only by the tables presenting the ledger entries.
+            if hasattr(self.table, 'update'):
+                self.table = self.table.update(open=node.open, close=node.close, clear=node.clear)
+            elif node.open is not None or node.close is not None or node.clear is not None:
+                raise CompilationError('OPEN, CLOSE, and CLEAR are not supported for this table', node)
 
             return c_expression
 
